@@ -29,7 +29,7 @@ func init() {
 			"no lookup is issued on a released cache and no load is in flight when a cache is released (the callers' protocol in seq-db: Release happens under the fraction's write lock)",
 			"Rotate/Cleanup/CleanEmptyGenerations/ReleaseBuckets are called from one goroutine (the cleaner's threading contract)",
 		},
-		Batches: tiered(24, 160),
+		Batches: tiered(120, 2400),
 		Run:     runC18,
 		Race:    true,
 		Timeout: timeoutFor(10*time.Minute, 45*time.Minute),
